@@ -11,4 +11,6 @@ Definition np_rev (l : list T) : list T := rev l.
 Fixpoint np_argmax (b : list bool) : nat := match b with [] => O | true :: _ => O | false :: t => match np_argmax t with O => if existsb (fun x => x) t then 1 else O | S k => S (S k) end end.
 Definition np_last (l : list T) : T := last l oz.
 Definition np_lt_vec (l : list T) (c : T) : list bool := map (fun v => oltb v c) l.
+(* np.max(np.abs(s)) == 0.0 *)
+Definition np_all_zero (l : list T) : bool := forallb (fun v => oleb v oz) l.
 End Prims.
